@@ -31,7 +31,7 @@ def wide_chunk(ctx, k, events):
 def run(ctx):
     ctx.build("h-model", "c26")
     # wide tier first, in the background: full-width calls of the real code judged by Apalache
-    n_wide = 60 if ctx.quick else 400
+    n_wide = 60 if ctx.quick else 300
     wp = ctx.path("wide.ndjson")
     ctx.run_bin("c26", ["wide", "--seed", ctx.seed, "--n", n_wide, "--out", wp])
     wev = vlib.read_ndjson(wp)
